@@ -214,4 +214,52 @@ def lossNonStatio {T X S I κ : Type} [BEq κ] (dyn : Option (Weight × (T × X 
     boundary (obs.map ObsCfg.term)
     (ic.map fun (w, u0, uAt0) => icPDE w u0 uAt0 (inside.map (·.2)))
 
+/-! ### separable networks (SPINN branches of `normalization_loss_apply` / `initial_condition_apply`)
+
+A `SPINN` called on `B` rows of `D` coordinates returns its values on the tensor grid of the `D`
+coordinate columns (`B^D` entries, plus a trailing component axis); it has no `slice_solution`. -/
+
+/-- cartesian product of coordinate columns, first coordinate varying slowest -/
+def cart : List (List Rat) → List (List Rat)
+  | [] => [[]]
+  | col :: rest => col.flatMap fun a => (cart rest).map fun p => a :: p
+
+/-- the `nc` coordinate columns of a list of points -/
+def columns (nc : Nat) (pts : List (List Rat)) : List (List Rat) :=
+  (List.range nc).map fun j => pts.map fun p => p.getD j 0
+
+/-- `_get_grid` of the facet's rows: every combination of one entry per coordinate column -/
+def gridPts (nc : Nat) (pts : List (List Rat)) : List (List Rat) := cart (columns nc pts)
+
+/-- `jnp.repeat(times, n_samples // n_times, axis=0)`: every batch time repeated consecutively -/
+def repTimes {T : Type} (ts : List T) (ns : Nat) : List T :=
+  ts.flatMap fun t => List.replicate (ns / ts.length) t
+
+/-- `assert norm_samples.shape[0] % times.shape[0] == 0` fails -/
+def normSpinnRejected (nt ns : Nat) : Bool := nt == 0 || ns % nt != 0
+
+/-- `LossPDEStatio` around a SPINN (no dynamic part, no observations here):
+    normalisation `res = u(norm_samples)` on the grid of the sample coordinate columns,
+    `w * abs(mean(mean(res, axis=-1), all grid axes) * L - 1)**2` — the mean runs over the grid and
+    over the output components. -/
+def lossStatioSpinn (d : Nat) (norm : Option (Rat × Rat × (List Rat → List Rat) × List (List Rat)))
+    (boundary : Option Rat) : Rat × PdeTerms :=
+  evalStatio none (norm.map fun (w, L, u, samples) => normStatio w L none u (gridPts d samples))
+    boundary none
+
+/-- `LossPDENonStatio` around a SPINN: normalisation `res = u(repeat(times, rep_t), norm_samples)`,
+    grid (repeated times) × (sample coordinate columns);
+    `w * mean_t(abs(mean(mean(res, axis=-1), space grid axes) * L - 1)**2)`, the outer mean over the
+    repeated times.  Initial condition: `u(zeros, omega_batch)[0]` against `u0(_get_grid(omega_batch))`
+    on the grid of the space columns of the inside batch. -/
+def lossNonStatioSpinn (d : Nat)
+    (norm : Option (Rat × Rat × (Rat → List Rat → List Rat) × List (List Rat)))
+    (boundary : Option Rat) (ic : Option (Weight × (List Rat → List Rat) × (List Rat → List Rat)))
+    (inside : List (Rat × List Rat)) : Rat × PdeTerms :=
+  evalNonStatio none
+    (norm.map fun (w, L, u, samples) =>
+      normNonStatio w L none u (repTimes (inside.map (·.1)) samples.length) (gridPts d samples))
+    boundary none
+    (ic.map fun (w, u0, uAt0) => icPDE w u0 uAt0 (gridPts d (inside.map (·.2))))
+
 end Jinns.LossTerms
